@@ -218,7 +218,8 @@ Section BS.
     sb_flush_block enc_size meta_enc b key ts = Ok b2 ->
     kref_cmp (sb_last_key b) (sb_last_ts b) key ts = Lt ->
     exists r, r_chunk r = cur /\ spre b2 (recs ++ [r]) [] /\ sb_block b2 = None /\ sb_opts b2 = sb_opts b /\
-              kref_cmp (r_key r) (r_ts r) key ts = Lt.
+              kref_cmp (r_key r) (r_ts r) key ts = Lt /\
+              kref_cmp (sb_last_key b) (sb_last_ts b) (r_key r) (r_ts r) <> Gt.
   Proof.
     intros b recs cur bb key ts b2 P Hb I Hne Hk H Hlt. unfold sb_flush_block in H. rewrite Hb in H.
     set (blk := bb_seal enc_size bb) in *. set (start := sb_written b) in *.
@@ -236,7 +237,7 @@ Section BS.
     assert (Hlastall : last_from (all_of recs cur) = last_kt (all_of recs cur)).
     { unfold last_from. destruct (all_of recs cur) eqn:E; [|reflexivity].
       exfalso. apply Hne. unfold all_of in E. now apply app_eq_nil in E as [_ E]. }
-    split; [|cbn [sb_block sb_opts r_key r_ts r]; auto].
+    split; [|cbn [sb_block sb_opts r_key r_ts r]; repeat split; auto].
     constructor; cbn [sb_last_key sb_last_ts sb_written sb_frames sb_index sb_filter sb_setsum sb_smallest sb_biggest];
       rewrite ?Hall; auto.
     - (* recs_ok *)
@@ -315,7 +316,11 @@ Section BS.
     sb_add enc_size meta_enc sip b e = Ok b1 ->
     exists recs1 cur1, sinv b1 recs1 cur1 /\ all_of recs1 cur1 = all_of recs cur ++ [e] /\
                        sb_opts b1 = sb_opts b /\
-                       kref_cmp (fst (last_from (all_of recs cur))) (snd (last_from (all_of recs cur))) (e_key e) (e_ts e) = Lt.
+                       kref_cmp (fst (last_from (all_of recs cur))) (snd (last_from (all_of recs cur))) (e_key e) (e_ts e) = Lt /\
+                       ((recs1 = recs /\ cur1 = cur ++ [e]) \/
+                        (exists r, recs1 = recs ++ [r] /\ cur1 = [e] /\ r_chunk r = cur /\
+                                   kref_cmp (r_key r) (r_ts r) (e_key e) (e_ts e) = Lt /\
+                                   kref_cmp (sb_last_key b) (sb_last_ts b) (r_key r) (r_ts r) <> Gt)).
   Proof.
     intros b recs cur e b1 (P & B) Hk H. unfold sb_add in H.
     destruct (sb_precheck enc_size b e) as [[]|] eqn:EP; cbn [bind] in H; [|discriminate].
@@ -344,13 +349,13 @@ Section BS.
       destruct (so_tbs (sb_opts b) <? bb_approx_size enc_size bb) eqn:Ecut.
       + (* flush the current block, start a new one *)
         destruct (sb_flush_block enc_size meta_enc b (e_key e) (e_ts e)) as [b2|] eqn:EF; cbn [bind] in EG; [|discriminate].
-        destruct (flush_inv b recs cur bb _ _ b2 P Eb I Hne Hk EF Hlt) as (r & Hr & P2 & Hb2 & Ho2 & Hrlt).
+        destruct (flush_inv b recs cur bb _ _ b2 P Eb I Hne Hk EF Hlt) as (r & Hr & P2 & Hb2 & Ho2 & Hrlt & Hrle).
         destruct (start_new_block_ok b2 Hb2) as (b3 & E3 & Hb3 & Ho3 & F1 & F2 & F3 & F4 & F5 & F6 & F7 & F8 & F9).
         rewrite E3 in EG. injection EG as <-. rewrite Hb3 in H.
         destruct (bb_add enc_size (bb_new (so_block (sb_opts b2))) e) as [bb1|] eqn:EA; cbn [bind] in H; [|discriminate].
         injection H as <-.
         pose proof (spre_transfer b2 b3 _ _ P2 F1 F2 F3 F4 F5 F6 F7 F8 F9) as P3.
-        exists (recs ++ [r]), ([] ++ [e]). split; [|split; [|split]].
+        exists (recs ++ [r]), ([] ++ [e]). split; [|split; [|split; [|split]]].
         * apply (finish_inv b3 (recs ++ [r]) [] _ e bb1 P3 Hb3 (binv_new enc_size _) EA); auto.
           -- now rewrite (all_of_flush recs r cur Hr).
           -- intros r' Hr'. apply in_app_or in Hr' as [Hr'|[<-|[]]].
@@ -362,10 +367,11 @@ Section BS.
           now rewrite (all_of_flush recs r cur Hr).
         * cbn [sb_opts]. congruence.
         * exact Hlt'.
+        * right. exists r. repeat split; auto.
       + (* the entry goes to the current block *)
         injection EG as <-. rewrite Eb in H.
         destruct (bb_add enc_size bb e) as [bb1|] eqn:EA; cbn [bind] in H; [|discriminate].
-        injection H as <-. exists recs, (cur ++ [e]). split; [|split; [|split]].
+        injection H as <-. exists recs, (cur ++ [e]). split; [|split; [|split; [|split]]].
         * apply (finish_inv b recs cur bb e bb1 P Eb I EA); auto.
           intros r' Hr'. destruct cur as [|e0 cur'] eqn:Ec; [congruence|].
           eapply lex_le_trans; [apply (recs_keys_le recs (e0 :: cur') 0 r' e0 (sp_recs _ _ _ P) Hr'); now left|].
@@ -373,6 +379,7 @@ Section BS.
         * unfold all_of. now rewrite app_assoc.
         * reflexivity.
         * exact Hlt'.
+        * left. auto.
     - (* the very first entry: no block yet *)
       destruct B as (-> & ->).
       destruct (start_new_block_ok b Eb) as (b3 & E3 & Hb3 & Ho3 & F1 & F2 & F3 & F4 & F5 & F6 & F7 & F8 & F9).
@@ -380,11 +387,12 @@ Section BS.
       destruct (bb_add enc_size (bb_new (so_block (sb_opts b))) e) as [bb1|] eqn:EA; cbn [bind] in H; [|discriminate].
       injection H as <-.
       pose proof (spre_transfer b b3 _ _ P F1 F2 F3 F4 F5 F6 F7 F8 F9) as P3.
-      exists [], ([] ++ [e]). split; [|split; [|split]].
+      exists [], ([] ++ [e]). split; [|split; [|split; [|split]]].
       + apply (finish_inv b3 [] [] _ e bb1 P3 Hb3 (binv_new enc_size _) EA); auto. intros r' [].
       + reflexivity.
       + cbn [sb_opts]. congruence.
       + exact Hlt'.
+      + left. auto.
   Qed.
 
   Lemma sb_add_all_inv : forall es b recs cur b1, sinv b recs cur -> keys_ok es ->
@@ -495,7 +503,7 @@ Section BS.
           destruct (exists_last Hne') as (l' & z & ->). rewrite last_last. apply in_or_app. right. now left. }
         assert (Hlt : kref_cmp (sb_last_key b) (sb_last_ts b) k t0 = Lt).
         { pose proof (minimal_successor_gt (sb_last_key b) (sb_last_ts b)) as G. now rewrite Em in G. }
-        destruct (flush_inv b recs cur bb k t0 b1 P Eb I Hne Hk EF Hlt) as (r & Hr & P2 & Hb2 & Ho2 & _).
+        destruct (flush_inv b recs cur bb k t0 b1 P Eb I Hne Hk EF Hlt) as (r & Hr & P2 & Hb2 & Ho2 & _ & _).
         exists b1, (recs ++ [r]). split; [reflexivity|]. split; [exact P2|]. split; [|exact Ho2].
         now apply all_of_flush.
       - destruct B as (-> & ->). exists b, []. split; [reflexivity|]. split; [exact P|]. split; reflexivity. }
